@@ -733,11 +733,14 @@ type c13RandCase struct {
 }
 
 // c13Script drives every API; it tolerates failing steps (they must only not panic)
-func c13Script(w *verifWorld) (panics []string) {
+func c13Script(w *verifWorld, onStep func()) (panics []string) {
 	A, B := w.P[0], w.P[1]
 	note := func(r verifResult) verifResult {
 		if r.Panic != "" {
 			panics = append(panics, r.Panic)
+		}
+		if onStep != nil {
+			onStep()
 		}
 		return r
 	}
@@ -778,7 +781,7 @@ func c13Script(w *verifWorld) (panics []string) {
 func newC13Rand(seed int64, pairs bool) *c13Rand {
 	p := &c13Rand{seed: seed}
 	w := p.world()
-	c13Script(w)
+	c13Script(w, nil)
 	p.reads = [2]int{w.P[0].R.Reads, w.P[1].R.Reads}
 	for who := 0; who < 2; who++ {
 		for k := 0; k < p.reads[who]; k++ {
@@ -812,11 +815,46 @@ func (p *c13Rand) Run(ix int) ([]verifFinding, bool) {
 	d.FailAt, d.Short = c.k, c.short
 	d.FailAt2 = c.k2
 	var fs []verifFinding
-	for _, pn := range c13Script(w) {
+	probed := false
+	// right after the call in which the fault fired (and before the script's own End() calls can tidy up):
+	// an exchange started from either side with a healthy source must not crash on what the failed call left behind
+	probe := func() {
+		if probed || d.Reads <= c.k {
+			return
+		}
+		probed = true
+		for dir := 0; dir < 2; dir++ {
+			cw := w.clone()
+			cw.P[c.who].R.FailAt, cw.P[c.who].R.FailAt2 = -1, -1
+			verifTick(cw.P[0].C)
+			verifTick(cw.P[1].C)
+			cw.Q[0], cw.Q[1] = nil, nil
+			cw.Q[1-dir] = append(cw.Q[1-dir], cw.P[dir].Query())
+			cw.deliverAll(40, func(_ int, _ []byte, r verifResult) {
+				if r.Panic != "" {
+					fs = append(fs, verifFinding{"C13:panic-after-rand-failure:" + verifPanicClass(r.Panic), p.Describe(ix) + " (new exchange right after the failed call): " + r.Panic})
+				}
+			})
+		}
+	}
+	for _, pn := range c13Script(w, probe) {
 		fs = append(fs, verifFinding{"C13:panic-on-rand-failure:" + verifPanicClass(pn), fmt.Sprintf("%s: %s", p.Describe(ix), pn)})
 	}
-	// heal and require usability
+	// heal and require usability: first as the conversations are (an exchange started from either side must
+	// not crash on whatever the failed call left behind), then after End() on both sides
 	d.FailAt, d.FailAt2 = -1, -1
+	for dir := 0; dir < 2; dir++ {
+		c := w.clone()
+		verifTick(c.P[0].C)
+		verifTick(c.P[1].C)
+		c.Q[0], c.Q[1] = nil, nil
+		c.Q[1-dir] = append(c.Q[1-dir], c.P[dir].Query())
+		c.deliverAll(40, func(_ int, _ []byte, r verifResult) {
+			if r.Panic != "" {
+				fs = append(fs, verifFinding{"C13:panic-after-rand-failure:" + verifPanicClass(r.Panic), p.Describe(ix) + " (new exchange without End): " + r.Panic})
+			}
+		})
+	}
 	for i := 0; i < 2; i++ {
 		w.P[i].End()
 		verifTick(w.P[i].C)
